@@ -359,6 +359,8 @@ type renderer struct {
 	forms map[string]bool
 	// every value rendered, for the signature tags of the case
 	vals []*model.V
+	// prefer names a computed path to take most of the time when it applies
+	prefer string
 }
 
 func newRenderer(t *rapid.T) *renderer { return &renderer{t: t, forms: map[string]bool{}} }
@@ -547,7 +549,21 @@ func (r *renderer) computed(g gcfg, v *model.V) (src, path string) {
 	if len(v.Elems) > 0 {
 		options = append(options, "map-id")
 	}
+	relHeading, isRel := model.Heading(v)
+	if _, sugarHeading := v.Elems0SugarAttr(); isRel && !sugarHeading && len(v.Elems) > 0 && len(relHeading) >= 2 && allIdent(relHeading) {
+		// joins lay their result columns out in join order, not sorted order
+		options = append(options, "join-proj", "join-proj", "join-proj")
+	}
+	var splitKey, splitRest []string
+	if _, sugarHeading := v.Elems0SugarAttr(); isRel && !sugarHeading && len(v.Elems) > 0 && allIdent(relHeading) {
+		if splitKey, splitRest = losslessSplit(t, v, relHeading); len(splitRest) >= 2 {
+			options = append(options, "join-split", "join-split", "join-split", "join-split")
+		}
+	}
 	path = pick(t, "path", options...)
+	if r.prefer != "" && inNamesList(options, r.prefer) && chance(t, "preferpath", 70) {
+		path = r.prefer
+	}
 	r.use("path:" + path)
 	switch path {
 	case "union":
@@ -597,6 +613,24 @@ func (r *renderer) computed(g gcfg, v *model.V) (src, path string) {
 		// ++ shifts its right operand by the element count of the left one
 		b := model.Seq(sv.Attr, sv.Off, sv.Items[k:]...)
 		return "(" + r.lit(a) + " ++ " + r.lit(b) + ")", path
+	case "join-proj":
+		// v joined with its own projection onto some of its attributes is v
+		n := rapid.IntRange(1, len(relHeading)-1).Draw(t, "nproj")
+		sub := rapid.Permutation(relHeading).Draw(t, "projattrs")[:n]
+		proj := model.MapSet(v, func(e *model.V) *model.V { return model.Project(e, sub) })
+		if chance(t, "projleft", 60) {
+			return "(" + r.lit(proj) + " <&> " + r.lit(v) + ")", path
+		}
+		return "(" + r.lit(v) + " <&> " + r.lit(proj) + ")", path
+	case "join-split":
+		// the key determines the row, so joining the two projections is lossless;
+		// the result's physical column order is (left-only, key, right-only)
+		cut := rapid.IntRange(1, len(splitRest)-1).Draw(t, "splitcut")
+		left := append(append([]string{}, splitKey...), splitRest[:cut]...)
+		right := append(append([]string{}, splitKey...), splitRest[cut:]...)
+		pa := model.MapSet(v, func(e *model.V) *model.V { return model.Project(e, left) })
+		pb := model.MapSet(v, func(e *model.V) *model.V { return model.Project(e, right) })
+		return "(" + r.lit(pa) + " <&> " + r.lit(pb) + ")", path
 	case "seqmap-id":
 		return "(" + r.lit(v) + " >> .)", path
 	case "map-id":
@@ -874,4 +908,18 @@ func (g gcfg) mutate1(t *rapid.T, v *model.V) *model.V {
 		}
 		return model.With(model.Without(v, e), g.mutate(t, e))
 	}
+}
+
+// losslessSplit looks for attributes key of relation v whose values identify
+// the row; rest are the other attributes in a random order. ok iff len(rest) >= 2.
+func losslessSplit(t *rapid.T, v *model.V, h []string) (key, rest []string) {
+	perm := rapid.Permutation(h).Draw(t, "splitperm")
+	for n := 0; n <= len(perm)-2; n++ {
+		k := perm[:n]
+		proj := model.MapSet(v, func(e *model.V) *model.V { return model.Project(e, k) })
+		if proj.Count() == v.Count() {
+			return k, perm[n:]
+		}
+	}
+	return nil, nil
 }
